@@ -104,9 +104,20 @@ func flavourOf(rt *rapid.T) xdoc.Flavour {
 
 func TestC01Rapid(t *testing.T) {
 	runRapid(t, uC01Rapid, func(rt *rapid.T) {
-		doc := xgen.Doc(rt, xgen.DefaultDoc())
+		o := xgen.DefaultDoc()
+		prefixed := rapid.IntRange(0, 4).Draw(rt, "prefixed") == 0
+		if prefixed {
+			// prefixed names (matched by prefix + local name, no namespace map) and repeated attribute locals
+			o.NS = &xgen.NSOpts{Prefixes: []string{"", "", "p", "q"}, URIs: []string{"", "u"}}
+			o.ElNames = xgen.ElNames2
+		}
+		doc := xgen.Doc(rt, o)
 		ctx := xgen.Context(rt, doc, 4)
 		g := xgen.NewG(rt, doc)
+		if prefixed {
+			g.ElNames = xgen.ElNames2
+			g.Prefixes = []string{"", "p", "q"}
+		}
 		p := g.AxisPath(ctx, xgen.PathOpts{MaxSteps: 4, AbsShare: 4, DSlash: 2})
 		l := &harness.Live{Property: "C01", Check: "C01/select-set", Doc: doc, Ctx: ctx, AST: p, Expr: xast.Render(p), Flavour: flavourOf(rt)}
 		info, f := oracleC01(l)
@@ -120,6 +131,9 @@ func TestC01Rapid(t *testing.T) {
 			if st, ok := s.(*xast.Step); ok {
 				info.labels = append(info.labels, "axis:"+st.Axis)
 			}
+		}
+		if prefixed {
+			info.labels = append(info.labels, "doc:prefixed-names")
 		}
 		uC01Rapid.Case(harness.Mix(doc.Hash(), uint64(ctx.ID), harness.Hash64(l.Expr)), info.nontrivial, info.labels, func() interface{} {
 			return l.Sample("result", describe(doc, info.want))
